@@ -392,6 +392,13 @@ func runTasks(scratch string, tasks []task, nproc int) (map[int]result, error) {
 				}
 				var rest []task
 				crashed := false
+				if runErr != nil && started >= 0 {
+					// A panicking operator goroutine runs its deferred close() of the
+					// result channel first, so the puller may see a clean end of stream
+					// and the task's (empty) result may be written before the process
+					// dies: the task started last is the one that crashed.
+					delete(done, started)
+				}
 				for _, t := range pending {
 					if done[t.ID] {
 						continue
